@@ -208,6 +208,14 @@ def gen_gene(rng, idx, lo, hi, seqname, p=None):
             tx["product"] = idv("product ") if ident != "adv" else adversarial_string(rng, 6, exclude=ex)
         tx["qualifiers"] = gen_qualifiers(rng, qstyle, 2, ex, p.get("key_pool"))
         txs.append(tx)
+    # content-identical isoforms inside ONE gene are refused by the library (DuplicateTranscriptError): drop them
+    seen, uniq = set(), []
+    for t in txs:
+        key = repr(sorted(t.items(), key=lambda kv: kv[0]))
+        if key not in seen:
+            seen.add(key)
+            uniq.append(t)
+    txs = uniq
     any_coding = any(t["cds_starts"] is not None for t in txs)
     gene_type = (BIOTYPES_CODING[0] if any_coding else rng.choice(BIOTYPES_NONCODING))
     bt = p.get("biotypes", "same")               # same | none | differ
